@@ -2,11 +2,11 @@ module psharness
 
 go 1.23.2
 
-require seehuhn.de/go/postscript v0.0.0
-
 require (
-	golang.org/x/exp v0.0.0-20240409090435-93d18d7e34b8 // indirect
-	seehuhn.de/go/geom v0.0.0-20250114140758-af83eac7b27c // indirect
+	seehuhn.de/go/geom v0.0.0-20250114140758-af83eac7b27c
+	seehuhn.de/go/postscript v0.0.0
 )
+
+require golang.org/x/exp v0.0.0-20240409090435-93d18d7e34b8 // indirect
 
 replace seehuhn.de/go/postscript => /repo
